@@ -103,6 +103,23 @@ pub fn parse_blueprint(json: &str) -> Result<Blueprint, String> {
     serde_json::from_str(json).map_err(|e| e.to_string())
 }
 
+/// Remove the scratch projects of this process and those left behind by processes that no
+/// longer exist (directory names are `<tag>_<pid>_<n>`).  Projects of other *live* checks are
+/// left alone: removing the whole work directory made a concurrently running check fail with
+/// "couldn't find any aiken.toml".
 pub fn clean_work() {
-    let _ = std::fs::remove_dir_all(WORK);
+    let me = std::process::id();
+    let Ok(rd) = std::fs::read_dir(WORK) else { return };
+    for e in rd.flatten() {
+        let name = e.file_name().to_string_lossy().to_string();
+        let pid = name.split('_').rev().nth(1).and_then(|p| p.parse::<u32>().ok());
+        let stale = match pid {
+            Some(p) if p == me => true,
+            Some(p) => !std::path::Path::new(&format!("/proc/{p}")).exists(),
+            None => false,
+        };
+        if stale {
+            let _ = std::fs::remove_dir_all(e.path());
+        }
+    }
 }
